@@ -473,7 +473,12 @@ func genUnit(x g, cfg Cfg, level int) *Unit {
 	for {
 		k := x.n(100)
 		switch {
-		case k < 5:
+		case k < 2:
+			if cfg.NoPK {
+				continue
+			}
+			return genNumericString(x, cfg)
+		case k < 6:
 			return genColValue(x, cfg)
 		case k < 24:
 			return genRawUnit(x, cfg, ModeQ)
@@ -566,6 +571,25 @@ func genCalls(x g, cfg Cfg, n, level int, leadingOr bool) []Call {
 	return calls
 }
 
+// genNumericString: a string that parses as an integer is a primary key value in
+// every role (Where("7"), Not("-1"), inline): also with a sign.
+func genNumericString(x g, cfg Cfg) *Unit {
+	id := 1 + x.n(cfg.MaxID+1)
+	str := fmt.Sprint(id)
+	switch x.n(4) {
+	case 0:
+		id = -id
+		str = fmt.Sprint(id)
+	case 1:
+		str = "+" + str
+	}
+	u := &Unit{Form: FPKScalar, Tree: Atom("id", OpEq, IntV(id)), Query: str, Desc: fmt.Sprintf("%q", str), Feats: featsOf("pk:numeric-string")}
+	if str[0] == '-' || str[0] == '+' {
+		u.Feats["pk:signed-numeric-string"] = true
+	}
+	return u
+}
+
 // GenInline draws an inline finisher condition (any unit form, plus a bare
 // primary key value).
 func GenInline(rt *rapid.T, cfg Cfg) *Unit {
@@ -573,12 +597,10 @@ func GenInline(rt *rapid.T, cfg Cfg) *Unit {
 	for {
 		if !cfg.NoPK && x.pct(12) {
 			id := 1 + x.n(cfg.MaxID+1)
-			u := &Unit{Form: FPKScalar, Tree: Atom("id", OpEq, IntV(id)), Query: id, Desc: fmt.Sprint(id), Feats: featsOf()}
-			if x.pct(30) { // a numeric string is a primary key too
-				u.Query, u.Desc = fmt.Sprint(id), fmt.Sprintf("%q", fmt.Sprint(id))
-				u.Feats["pk:numeric-string"] = true
+			if x.pct(40) {
+				return genNumericString(x, cfg)
 			}
-			return u
+			return &Unit{Form: FPKScalar, Tree: Atom("id", OpEq, IntV(id)), Query: id, Desc: fmt.Sprint(id), Feats: featsOf()}
 		}
 		u := genUnit(x, cfg, 0)
 		if c := findingClass(VWhere, u); c != "" && cfg.skip(c) {
